@@ -190,7 +190,7 @@ def run_case(case):
             pf.solvePDE(p2, t2, externalsolver=s2)
             if np.all(np.isfinite(s1.last[2])) and np.all(np.isfinite(s2.last[2])):
                 M2, b2, _ = s2.last
-                e = residual_err(M2, s1.last[2], b2)
+                e = residual_err(M2, s1.last[2], b2, solver_output=True)
                 maxerr['scale-invariance'] = e
                 cov['scale_invariance'] = 1
                 if not (e <= TOL):
